@@ -101,11 +101,14 @@ def children_sum(a, co):
 
 
 # ---------------------------------------------------------------- driver
-def gen_pair(r):
+def gen_pair(r, force=None):
     sc = int(r.integers(0, 7))
     co = CO[sc]
     shape = tuple(int(gen.choice(r, [4, 6, 8, 10, 12] if co[d] else
                                  [2, 3, 4, 5, 6, 7])) for d in range(3))
+    if force is not None:          # same pattern and shapes, other widths
+        sc, shape = force
+        co = CO[sc]
     # keep the number of fine edges moderate
     while 3*np.prod([s+1 for s in shape]) > 2600:
         d = int(np.argmax(shape))
@@ -129,10 +132,10 @@ def gen_pair(r):
     return sc, shape, gs, ms, freq
 
 
-def check_pair(rec, r, tag):
+def check_pair(rec, r, tag, force=None):
     import emg3d
     from emg3d import solver, models
-    sc, shape, gs, ms, freq = gen_pair(r)
+    sc, shape, gs, ms, freq = gen_pair(r, force)
     co = CO[sc]
     grid, model = gen.build_emg3d(gs, ms)
     sf = emg3d.Field(grid, frequency=freq)
@@ -285,9 +288,11 @@ def check_pair(rec, r, tag):
                       f'P(0, c): {d5:.3e}', case)
     rec.distinct((sc, shape, str(dtype), ms['case']))
     rec.extra_set('patterns_driver', [sc])
+    rec.extra_add('twin_pairs' if force is not None else 'fresh_pairs')
     rec.sample({'sc_dir': sc, 'fine_shape': shape, 'coarse_shape': cshape,
                 'dtype': str(dtype), 'case': ms['case'], 'fine_edges': nf,
                 'coarse_edges': nc, 'R_minus_PT': d1, 'hx': gs['hx']})
+    return sc, shape
 
 
 # ---------------------------------------------------------------- in situ
@@ -388,7 +393,13 @@ def run_batch(batch):
     for i in range(batch['n']):
         if batch['mode'] == 'driver':
             r = gen.rng(batch['seed'], 'C04', batch['k'], i)
-            check_pair(rec, r, f"{batch['k']}:{i}")
+            got = check_pair(rec, r, f"{batch['k']}:{i}")
+            # A twin: same pattern and shapes, different widths, in the same
+            # process with no solve() in between (anything remembered from
+            # the first grid pair must not leak into the second).
+            if got is not None and i % 2 == 0:
+                r2 = gen.rng(batch['seed'], 'C04', batch['k'], i, 'twin')
+                check_pair(rec, r2, f"{batch['k']}:{i}:twin", force=got)
         else:
             insitu(rec, batch['seed'], batch['k'], i, batch['tier'])
     return rec.result()
